@@ -128,7 +128,7 @@ def _sum(c, wts, f=lambda x: x):
 
 
 # =============================================================================================== C10
-DW_LOOP = 'DollarWeightedCashBufferedOrderSizer.__call__#for sorted(normalised_weights.items())#0'
+DW_LOOP = 'DollarWeightedCashBufferedOrderSizer.__call__#for sorted(_.items())#0'
 
 
 @harness('DollarWeightedCashBufferedOrderSizer.__call__', props=['C10'], also=['C09', 'C08', 'C07'], layer='L3',
@@ -201,7 +201,7 @@ def dw_call(c):
             c.region = 'weight-sum-within-1e-8-of-zero'
         for k in wts:
             for n, f in (clause_zero(VAL(res, k, 'quantity'), k) if S == 0 else clause(VAL(res, k, 'quantity'), k)):
-                c.ob('#for sorted(normalised_weights.items())#0:kernel/' + n, f)
+                c.ob('#for sorted(_.items())#0:kernel/' + n, f)
         c.region = reg
         c.ob('target-has-exactly-the-weighted-assets', set(res) == set(wts), props=['C10', 'C09'])
         if S > EPS:
@@ -410,7 +410,7 @@ def ls_arithmetic(c):
         c.ob(n, f)
 
 
-LS_LOOP = 'LongShortLeveragedOrderSizer.__call__#for sorted(normalised_weights.items())#0'
+LS_LOOP = 'LongShortLeveragedOrderSizer.__call__#for sorted(_.items())#0'
 
 
 @harness('LongShortLeveragedOrderSizer.__call__', props=['C11'], also=['C09', 'C08', 'C07'], layer='L3',
@@ -531,7 +531,7 @@ def ls_call(c):
             c.region = 'gross-exposure-within-1e-8-of-zero'
         for k in wts:
             for n, f in (clause_zero(VAL(res, k, 'quantity'), k) if G == 0 else clause(VAL(res, k, 'quantity'), k)):
-                c.ob('#for sorted(normalised_weights.items())#0:kernel/' + n, f)
+                c.ob('#for sorted(_.items())#0:kernel/' + n, f)
         c.region = reg
         c.ob('target-has-exactly-the-weighted-assets', set(res) == set(wts), props=['C11', 'C09'])
         if G > EPS and r <= 1:
